@@ -49,7 +49,9 @@ def model_run(prog, events, drv=None):
     return drv.call('engine.run', {'spec': cs.spec_json(prog), 'events': events})
 
 
-def replay(prog, events, seed=1, compare=True, drv=None):
+def replay(prog, events, seed=1, compare=True, drv=None, drain=False):
+    """drain=True: after the event list, the real engine is run to quiescence (oldest enabled delivery first,
+    real actions); the deliveries are appended to the event list as model events and compared as well"""
     from harness import boot
     boot.boot()
     from harness import core_stream as cs
@@ -93,6 +95,36 @@ def replay(prog, events, seed=1, compare=True, drv=None):
                 res.update(ok=False, diverged_at=k,
                            why={key: {'model': mm[key], 'real': real[key]} for key in mm if mm[key] != real[key]})
                 break
+    if drain and res['ok']:
+        events = list(events)
+        robs = []
+        for _ in range(300):
+            en = enabled()
+            if not en:
+                break
+            it = en[0]
+            mi = mapper.item(it)
+            if mi is None or mi.get('t', 'x') is None:
+                res.update(ok=False, diverged_at=len(events), why='unsupported delivery while draining: %s' % w.describe(it))
+                break
+            if it[0] == 'p' and it[1].kind == 'action':
+                w.deliver(it, oracle=None)
+                rs = [p for p in w.pending if p.kind == 'rpc' and p.data['method'] == 'on_action_complete']
+                ok = bool(rs[-1].data['kwargs']['result'].is_success()) if rs else True
+                events.append({'ev': 'execute', 't': mi['t'], 'occ': mi.get('occ', 0), 'ok': ok})
+            else:
+                w.deliver(it, oracle=None)
+                events.append({'ev': 'deliver', 'item': mi})
+            robs.append(cs.real_obs(w, mapper))
+        if compare and res['ok'] and robs:
+            mo2 = model_run(prog, events, drv)
+            for k, real in enumerate(robs):
+                mm = cs.model_obs(mo2[len(events) - len(robs) + k])
+                if mm != real:
+                    res.update(ok=False, diverged_at=len(events) - len(robs) + k,
+                               why={key: {'model': mm[key], 'real': real[key]} for key in mm if mm[key] != real[key]})
+                    break
+        res['events'] = events
     final = cs.real_obs(w, mapper)
     res['final'] = final
     res['stuck'] = final['wf'] == 'RUNNING' and not enabled()
